@@ -1,1 +1,3 @@
 import Driver.Util
+import Driver.Ops.Data
+import Driver.Ops.Reply
